@@ -21,6 +21,7 @@ func main() {
 	enum := flag.String("enum", "", "run a single enumeration (debug)")
 	pb := flag.Int("p", 1, "preemption bound for -scenario")
 	db := flag.Int("d", 1, "deviation bound for -scenario")
+	por := flag.Bool("por", false, "sleep sets for -scenario")
 	flag.Parse()
 	if *enum != "" {
 		self, _ := os.Executable()
@@ -29,7 +30,7 @@ func main() {
 	}
 	if *scen != "" {
 		self, _ := os.Executable()
-		props.DebugScenario(*scen, *pb, *db, self)
+		props.DebugScenario(*scen, *pb, *db, self, *por)
 		return
 	}
 	if *worker {
